@@ -9,6 +9,9 @@ pub use remote_client::RemoteClient;
 
 pub use crate::error::CasClientError;
 pub use crate::interface::ShardClientInterface;
+// Verification hook: the remaining traits of `Client`, so that a harness can wrap a client.
+#[cfg(xet_verif)]
+pub use crate::interface::{RegistrationClient as VerifRegistrationClient, ShardDedupProber as VerifShardDedupProber};
 
 mod error;
 mod http_client;
